@@ -34,6 +34,35 @@ def zone_offset_us(zone: str, utc_us: int) -> Optional[int]:
     return (o.days * 86400 + o.seconds) * US_S + o.microseconds
 
 
+def zone_transitions(zone: str, year: int) -> List[int]:
+    """UTC instants (µs) in `year` at which the UTC offset of an IANA zone changes, from zoneinfo: a daily scan, then a
+    bisection to the second.  Used to aim accessor cases at the neighbourhood of daylight-saving transitions, where
+    "convert the instant to the zone" and "add the zone's offset read at the wrong instant / as wall time" differ."""
+    out = []
+    lo = loc_of_fields(year, 1, 1)
+    prev = zone_offset_us(zone, lo)
+    t = lo
+    for _ in range(366):
+        nxt = t + US_DAY
+        if nxt > MAX_LOC:
+            break
+        cur = zone_offset_us(zone, nxt)
+        if cur is not None and prev is not None and cur != prev:
+            a, b = t, nxt
+            while b - a > US_S:
+                mid = (a + b) // 2
+                mid -= mid % US_S
+                if mid <= a:
+                    break
+                if zone_offset_us(zone, mid) == prev:
+                    a = mid
+                else:
+                    b = mid
+            out.append(b)
+        prev, t = cur, nxt
+    return out
+
+
 def parse_fixed(text: str) -> Optional[int]:
     """own reading of ±HH:MM / HH:MM / H:MM (well-formed, minutes < 60) -> µs"""
     s = text
@@ -173,6 +202,27 @@ class C11(Prop):
                 l = rng.randint(loc_of_fields(1950, 1, 1), loc_of_fields(2037, 12, 31))
             via = rng.choice(["I", "C", "Ivar", "Cvar", "direct", "direct"])
             cases.append(acc_case(l, o, rng.choice(ACCESSORS), tzkind, via))
+        # instants in the neighbourhood of daylight-saving transitions of IANA zones (seeded C11-m8: the zone's offset read
+        # at the wrong instant is right everywhere except within |offset| hours of a transition)
+        dst_zones = [z for z in IANA if z != "UTC"]
+        for _ in range(10 if quick else 80):
+            z = rng.choice(dst_zones)
+            y = rng.randint(1975, 2036)
+            for tr in zone_transitions(z, y):
+                before = zone_offset_us(z, tr - US_S) or 0
+                after = zone_offset_us(z, tr) or 0
+                deltas = {0, -US_S, US_S, -30 * 60 * US_S, 30 * 60 * US_S, -before, -after, before, after,
+                          -before + US_S, -after - US_S, -abs(before) // 2, abs(after) // 2, -3600 * US_S, 3600 * US_S}
+                for dlt in sorted(deltas):
+                    l = tr + dlt
+                    if not (0 <= l <= MAX_LOC):
+                        continue
+                    for name in ("getHours", "getMinutes", "getDate", "getDayOfWeek", "getDayOfYear"):
+                        if quick and rng.random() < 0.5:
+                            continue
+                        c = {"kind": "acc", "name": name, "l": l, "o": 0, "tzkind": "iana", "tz": z,
+                             "via": rng.choice(["I", "C", "Ivar", "Cvar", "direct"])}
+                        cases.append(c)
         # an accessor applied to the RESULT of timestamp ± duration (a value built by the arithmetic dunders, carrying
         # the operand's own offset), with and without a zone argument, through both runners
         for _ in range(400 if quick else 6000):
